@@ -1,3 +1,52 @@
-From Gleece Require Import Base.Bytes Model.Conflicts.
-Theorem placeholder : True. Proof. exact I. Qed.
-Print Assumptions placeholder.
+(* C15 - Route-conflict detection flags exactly the overlapping same-verb routes.
+   Only statements here; every proof is [exact lemma].  The model function is
+   [find_conflicts_obs] (Model/Conflicts.v), the one the correspondence check runs
+   against paths.FindConflicts on every run. *)
+From Gleece Require Import Base.Bytes Model.Conflicts Proofs.ConflictsProofs.
+From Coq Require Import Permutation.
+
+(* "can match a common concrete path" is what patternsConflict decides *)
+Theorem C15_overlap_spec : forall a b : list str,
+  patterns_conflict a b = true <-> exists w, matches a w /\ matches b w.
+Proof. exact overlap_spec. Qed.
+
+(* the boolean oracle evaluated on implementation output is the property's statement *)
+Theorem C15_oracle_spec : forall es pairs, prop_C15 es pairs = true <-> P_C15 es pairs.
+Proof. exact prop_C15_spec. Qed.
+
+(* soundness + completeness, for every finite route list (any alphabet, depth, verbs,
+   duplicates): every reported pair is two distinct same-verb overlapping entries, and
+   every entry overlapping another same-verb entry is named by some reported conflict *)
+Theorem C15_sound_complete : forall es, P_C15 es (map fst (find_conflicts_obs es)).
+Proof. exact find_conflicts_P. Qed.
+
+Theorem C15_holds : forall es, prop_C15 es (map fst (find_conflicts_obs es)) = true.
+Proof. exact find_conflicts_prop. Qed.
+
+(* the flagged entries are characterised without reference to list order ... *)
+Theorem C15_flagged_spec : forall tes id,
+  NoDup (map fst tes) -> (In id (flagged_ids tes) <-> offending_id tes id).
+Proof. exact flagged_ids_spec. Qed.
+
+(* ... hence do not depend on discovery order *)
+Theorem C15_perm : forall tes tes',
+  Permutation tes tes' -> NoDup (map fst tes) ->
+  forall id, In id (flagged_ids tes) <-> In id (flagged_ids tes').
+Proof. exact flagged_ids_perm. Qed.
+
+(* non-vacuity: a list with a triple duplicate and all report kinds; the oracle accepts
+   the model's answer and rejects an incomplete one *)
+Example C15_nonvacuous :
+  map fst (find_conflicts_obs demo_entries) =
+  [(1, 0); (0, 2); (0, 4); (5, 6); (5, 7); (7, 6); (7, 6)] /\
+  prop_C15 demo_entries (map fst (find_conflicts_obs demo_entries)) = true /\
+  prop_C15 demo_entries [(1, 0); (0, 4)] = false.
+Proof. exact demo_nonvacuous. Qed.
+
+Print Assumptions C15_overlap_spec.
+Print Assumptions C15_oracle_spec.
+Print Assumptions C15_sound_complete.
+Print Assumptions C15_holds.
+Print Assumptions C15_flagged_spec.
+Print Assumptions C15_perm.
+Print Assumptions C15_nonvacuous.
